@@ -293,7 +293,8 @@ type c34Side struct {
 	writes    []c34WriteRec
 	closedAt  int // number of writes recorded when the first local close/closewrite was issued (-1 = never)
 	inFlight  int  // Write calls currently executing on this side
-	timedOut  string // error text of the first Write that timed out on this side
+	timedOut  string // error text of the first Write that timed out on this side (the transport's write deadline expired during the call)
+	timedOutStep int // scheduler step at which that Write returned
 	abrupt    bool // a Close was issued while a Write was executing, or a Write failed: the stream may legitimately end mid-payload
 	abruptAt  int  // scheduler step at which abrupt was first set (0 = never)
 	localClose bool // a task of this side called Close
@@ -302,6 +303,9 @@ type c34Side struct {
 	sticky    bool // Read kept returning a timeout although its deadline had been moved into the future
 	rdlDone   time.Time   // read deadline of the last completed SetDeadline/SetReadDeadline call on this side
 	rdlPending []time.Time // read deadlines of such calls that are executing right now
+	rdlPendIdx []int       // their positions in rdlLog
+	rdlLog     []time.Time // every read deadline the application has set or started to set, in order
+	rdlDoneIdx int         // position in rdlLog of the last call that has returned
 	spurious  string      // a Read timed out before every read deadline the application had set
 	eofAgain  string      // a Read issued after the clean end of the stream did not report EOF again
 	closeRet  time.Time   // when the first Close call of this side returned
@@ -351,6 +355,9 @@ func execC34(t *testing.T, scAny any, keepLog bool) *Outcome {
 		// every read-deadline change goes through setRDL, so that the harness knows which deadlines can be in effect
 		setRDL := func(sd *c34Side, t time.Time, both bool) {
 			sd.rdlPending = append(sd.rdlPending, t)
+			sd.rdlLog = append(sd.rdlLog, t)
+			myIdx := len(sd.rdlLog) - 1
+			sd.rdlPendIdx = append(sd.rdlPendIdx, myIdx)
 			if both && (sd.wdlMin.IsZero() || t.Before(sd.wdlMin)) {
 				sd.wdlMin = t
 			}
@@ -365,7 +372,14 @@ func execC34(t *testing.T, scAny any, keepLog bool) *Outcome {
 					break
 				}
 			}
+			for i, p := range sd.rdlPendIdx {
+				if p == myIdx {
+					sd.rdlPendIdx = append(sd.rdlPendIdx[:i], sd.rdlPendIdx[i+1:]...)
+					break
+				}
+			}
 			sd.rdlDone = t
+			sd.rdlDoneIdx = myIdx
 		}
 		markAbrupt := func(sd *c34Side) {
 			if !sd.abrupt {
@@ -416,6 +430,12 @@ func execC34(t *testing.T, scAny any, keepLog bool) *Outcome {
 				spins := 0
 				for {
 					t0 := s.Now()
+					rdl0 := sd.rdlDoneIdx // the read deadline in effect when the call starts (or one being set just then); later entries are set during the call
+					for _, p := range sd.rdlPendIdx {
+						if p < rdl0 {
+							rdl0 = p
+						}
+					}
 					n, err := sd.conn.Read(buf)
 					sd.recv = append(sd.recv, buf[:n]...)
 					if !sd.closeRet.IsZero() {
@@ -438,9 +458,16 @@ func execC34(t *testing.T, scAny any, keepLog bool) *Outcome {
 						}
 					}
 					if ne, ok := err.(interface{ Timeout() bool }); err != nil && ok && ne.Timeout() && sd.spurious == "" && !sd.localClose {
-						// which read deadlines can be in effect? the last one set, or one being set right now
+						// which read deadlines can have ended the call? the one in effect when it started and every one set
+						// (or being set) since then — the task that moved the deadline may have moved it again before
+						// this task got to look
 						earliest := sd.rdlDone
 						for _, p := range sd.rdlPending {
+							if p.Before(earliest) {
+								earliest = p
+							}
+						}
+						for _, p := range sd.rdlLog[rdl0:] {
 							if p.Before(earliest) {
 								earliest = p
 							}
@@ -521,6 +548,7 @@ func execC34(t *testing.T, scAny any, keepLog bool) *Outcome {
 						idx := len(sd.writes)
 						sd.writes = append(sd.writes, c34WriteRec{Writer: myWriter, Seq: seq, Len: len(p)})
 						sd.inFlight++
+						wt0, step0 := nets[tk.Side].WriteTimeouts, s.Steps
 						n, err := sd.conn.Write(p)
 						sd.inFlight--
 						if err == nil && n == len(p) && (sd.closedAt < 0 || idx < sd.closedAt) {
@@ -529,8 +557,10 @@ func execC34(t *testing.T, scAny any, keepLog bool) *Outcome {
 						if err == nil && n != len(p) {
 							torn = fmt.Sprintf("side %d: Write of %d bytes returned (%d, nil)", tk.Side, len(p), n)
 						}
-						if err == nil && sd.timedOut != "" {
+						if err == nil && sd.timedOut != "" && step0 > sd.timedOutStep {
 							// documented: "After a Write has timed out, the TLS state is corrupt and all future writes will return the same error."
+							// (future writes: calls that start after the timed-out one has returned; a Write that fails with the
+							// read timeout of a renegotiation it had to wait for has not timed out as a write)
 							ackAfterTimeout = fmt.Sprintf("side %d: Write of %d bytes returned success after an earlier Write had timed out (%s)", tk.Side, len(p), sd.timedOut)
 						}
 						if err != nil {
@@ -541,7 +571,9 @@ func execC34(t *testing.T, scAny any, keepLog bool) *Outcome {
 							}
 							if ne, ok := err.(interface{ Timeout() bool }); ok && ne.Timeout() && sd.closedAt < 0 {
 								// an application that retries after a timeout: move the deadline and go on writing
-								sd.timedOut = err.Error()
+								if nets[tk.Side].WriteTimeouts > wt0 && sd.timedOut == "" {
+									sd.timedOut, sd.timedOutStep = err.Error(), s.Steps
+								}
 								o.count("probe.write_timed_out_then_retried", 1)
 								sd.conn.SetWriteDeadline(s.Now().Add(10 * time.Second))
 								continue
@@ -699,11 +731,13 @@ func execC34(t *testing.T, scAny any, keepLog bool) *Outcome {
 					o.count(k, n)
 				}
 				// (a write deadline moved by the application can expire while Read is writing its KeyUpdate reply: that
-				// write error is swallowed by design and leaves a cut record on the wire, which nobody can open)
+				// write error is swallowed by design and leaves a cut or skipped record on the wire, which nobody can
+				// open; the peer then answers with a fatal alert of its own, possibly into an expired deadline as well,
+				// so the damage is not confined to the direction of the side that moved the deadline)
 				wdlOps := false
 				for _, tk := range sc.Tasks {
 					for _, op := range tk.Ops {
-						if tk.Side == d && (op.Op == "setdl" || op.Op == "setwdl") {
+						if op.Op == "setdl" || op.Op == "setwdl" {
 							wdlOps = true
 						}
 					}
